@@ -20,6 +20,12 @@ if SRC in sys.path:
 sys.path.insert(0, SRC)
 
 
+if os.environ.get("HXV_COV"):  # diagnostic line coverage of the library (hxv/cov.py); never part of a verdict
+    from hxv import cov as _cov
+
+    _cov.start(SRC)
+
+
 class HarnessError(Exception):
     """Something is wrong with the harness or its environment (exit 2), never a violation."""
 
